@@ -63,7 +63,12 @@ def map_call_kind(site):
     if is_entry:
         if c.name in ('or_insert', 'or_insert_with', 'or_insert_with_key', 'or_default') and 'hash_map::Entry' in c.best:
             return 'KEEP_FIRST'
-        if c.name in ('key',):
+        # the arms of `match map.entry(k)`: filling a vacant slot replaces nothing; an occupied one may be looked at
+        if c.name in ('insert', 'insert_entry') and 'hash_map::VacantEntry' in c.best:
+            return 'KEEP_FIRST'
+        if c.name in ('get', 'into_mut', 'get_mut', 'key') and 'hash_map::OccupiedEntry' in c.best:
+            return 'READ'
+        if c.name in ('key', 'into_key'):
             return 'READ'
         return 'DESTROY'
     # map
@@ -263,6 +268,114 @@ BLOCKING = re.compile(
     r'|^std::sync::mpsc::')
 LOCK_ACQUIRE = re.compile(
     r'^utils::private::(RwLock::<T>::(read|write)|Mutex::<T>::lock)$'
-    r'|^std::sync::(RwLock|Mutex)::<T>::(read|write|lock)$|^parking_lot::|lock_api::'
+    r'|^std::sync::(RwLock|Mutex)::<T>::(read|write|lock)$'
+    r'|^(parking_lot::)?lock_api::(RwLock|Mutex|ReentrantMutex)::<R, T>::(read|write|lock|upgradable_read|read_recursive)$'
     r'|^std::cell::RefCell::<T>::(borrow|borrow_mut)$')
-GUARD_TY = re.compile(r'^(std::sync::(RwLockReadGuard|RwLockWriteGuard|MutexGuard)|lock_api::\w+Guard|parking_lot::\w+Guard|std::cell::(Ref|RefMut))<')
+GUARD_TY = re.compile(r'^(std::sync::(RwLockReadGuard|RwLockWriteGuard|MutexGuard)|(parking_lot::)?lock_api::\w+Guard|parking_lot::\w+Guard|std::cell::(Ref|RefMut))<')
+
+
+def guards_of(b, target_bb):
+    """the conditions under which `target_bb` runs: every live non-cleanup switch with exactly one edge through
+    which target_bb stays reachable.  Returns [(switch_bb, edge_target, label, tested)] where `tested` is
+    ('discr', access_path-of-the-enum-place) for a discriminant test and ('val', access_path) otherwise."""
+    out = []
+    live = b.live_blocks(unwind=False)
+    for bb, t in b.terms():
+        if t['k'] != 'switch' or b.blocks[bb]['cleanup'] or bb not in live:
+            continue
+        es = b.edges(bb)
+        keep = [(d, lab) for d, lab in es
+                if target_bb in b.reachable([0], removed_edges=[(bb, o) for o, _ in es if o != d])]
+        if len(keep) != 1 or len({d for d, _ in es}) < 2:
+            continue
+        if target_bb not in b.reachable([bb]):
+            continue
+        tested = None
+        if t['discr']['k'] in ('copy', 'move'):
+            l = t['discr']['place']['l']
+            if not t['discr']['place']['p']:
+                ds = [d for d in b.defs_of(l) if d[0] == 'stmt']
+                if len(ds) == 1 and ds[0][3]['rv']['k'] == 'discr':
+                    pl = ds[0][3]['rv']['place']
+                    tested = ('discr', b.access_path({'k': 'copy', 'place': pl}))
+        if tested is None:
+            tested = ('val', b.access_path(t['discr']))
+        out.append((bb, keep[0][0], keep[0][1], tested))
+    return out
+
+
+def inevitable(b, guards, target_bb):
+    """with every guard satisfied (all other edges of the guard switches removed), control cannot return
+    without passing through target_bb"""
+    removed = []
+    for sw, d, _, _ in guards:
+        removed += [(sw, o) for o, _ in b.edges(sw) if o != d]
+    r = b.reachable([0], removed_edges=removed, removed_blocks=[target_bb])
+    return not (r & set(b.return_blocks()))
+
+
+def deep_path(b, op_or_path, max_hops=8):
+    """access_path that also looks through tuple/struct aggregates built in the same body:
+    ['agg@bbN.i', 'k', ...] continues with the path of the k-th operand of that aggregate"""
+    ap = op_or_path if isinstance(op_or_path, list) else b.access_path(op_or_path)
+    for _ in range(max_hops):
+        if not ap or not ap[0].startswith('agg@') or len(ap) < 2 or not ap[1].isdigit():
+            break
+        m = re.match(r'agg@bb(\d+)\.(\d+)$', ap[0])
+        st = b.blocks[int(m.group(1))]['stmts'][int(m.group(2))]
+        ops = st['rv'].get('ops') or []
+        k = int(ap[1])
+        if k >= len(ops):
+            break
+        inner = b.access_path(ops[k])
+        if inner is None:
+            return None
+        ap = inner + ap[2:]
+        # `&x` followed by a deref cancels
+        out = []
+        for e in ap:
+            if e == '*' and out and out[-1] == '&':
+                out.pop()
+            else:
+                out.append(e)
+        ap = out
+    return ap
+
+
+def _cancel(ap):
+    out = []
+    for e in ap:
+        if e == '*' and out and out[-1] == '&':
+            out.pop()
+        else:
+            out.append(e)
+    return out
+
+
+def closure_sites(parent, closure_path):
+    """(bb, idx, stmt) of the statements of `parent` that build the closure `closure_path`"""
+    return [(bb, j, s) for bb, j, s in parent.assigns() if s['rv'].get('closure') == closure_path]
+
+
+def through_closure(parent, closure_body, op_or_path):
+    """path of a value used inside a closure, expressed in the body that builds the closure:
+    ['arg1', k, ...] (captured variable k) continues with the k-th captured operand in `parent`"""
+    ap = deep_path(closure_body, op_or_path)
+    if not ap or ap[0] != 'arg1':
+        return ap
+    rest = ap[1:]
+    if rest and rest[0] == '*':
+        rest = rest[1:]
+    if not rest or not rest[0].isdigit():
+        return ap
+    sites = closure_sites(parent, closure_body.path)
+    if len(sites) != 1:
+        return None
+    ops = sites[0][2]['rv']['ops']
+    k = int(rest[0])
+    if k >= len(ops):
+        return None
+    inner = deep_path(parent, ops[k])
+    if inner is None:
+        return None
+    return _cancel(inner + rest[1:])
